@@ -72,7 +72,7 @@ class Configuration:
             .. note:: if using the multiprocessing implementation, the seed for each process will be chosen randomly as
                       one can't have the same seed for each proces.
         """
-        if seed and (nb_of_processes is None or nb_of_processes > 1):
+        if seed is not None and (nb_of_processes is None or nb_of_processes > 1):
             logging.log(
                 level=logging.WARNING,
                 msg="when using multiprocessing, the random seed is set to a different "
@@ -90,7 +90,7 @@ class Configuration:
         .. note:: if multiprocessing is used, the seed for each process is set randomly as otherwise
                   all the processes would have the same seed
         """
-        if self.seed and not multiprocessing:
+        if self.seed is not None and not multiprocessing:
             np.random.seed(self.seed)
             np.random.default_rng(self.seed)
             random.seed(self.seed)
